@@ -199,6 +199,28 @@ def run(ctx):
         for k in range(pert):
             cases.append(make_table_case("tb%d" % n, ctx.rng, schema, codes[k % len(codes)]))
             n += 1
+    # long operations: removal of a crate with 70 (thorough 200) track-holding sub-crates, and of a track that is in all of them,
+    # failed at every fifth statement - an operation that commits part-way shows here, not in histories of a handful of crates
+    from .. import forest as FO
+    nsub = 70 if ctx.tier == "quick" else 200
+    for schema in ALL_SCHEMAS:
+        ops = [{"op": "create_temporary", "schema": schema}, {"op": "set_budget", "vdbe": 4 * 10 ** 9}]
+        for t in range(3):
+            ops.append({"op": "create_track", "as": "t%d" % t, "snap": {"relative_path": FO.hx("long/%d.mp3" % t)}})
+        ops.append({"op": "create_root_crate", "name": FO.hx("keep"), "as": "ck"})
+        ops.append({"op": "add_track", "c": "ck", "t": "t0"})
+        ops.append({"op": "create_root_crate", "name": FO.hx("doomed"), "as": "cr"})
+        for j in range(nsub):
+            ops.append({"op": "create_sub_crate", "c": "cr" if j % 5 else ("s%d" % (j - 1) if j else "cr"), "name": FO.hx("sub %03d" % j), "as": "s%d" % j})
+            ops.append({"op": "add_track", "c": "s%d" % j, "t": "t%d" % (j % 3)})
+            ops.append({"op": "add_track", "c": "s%d" % j, "t": "t0"})
+        code = codes[n % len(codes)]
+        ops.append({"op": "fault_sweep", "inner": {"op": "remove_track", "t": "t1"}, "code": code, "max_k": 4000, "k_stride": 5, "keep_going": True,
+                    "observe": {"snapshots": False, "max_names": 4}})
+        ops.append({"op": "fault_sweep", "inner": {"op": "remove_crate", "c": "cr"}, "code": code, "max_k": 8000, "k_stride": 5, "keep_going": True,
+                    "observe": {"snapshots": False, "max_names": 4}})
+        cases.append({"id": "long%d" % n, "schema": schema, "ops": ops, "_code": code})
+        n += 1
     c0 = cases[0]
     ctx.sample({"schema": c0["schema"], "calls": [opdesc(o["inner"]) for o in c0["ops"] if o["op"] == "fault_sweep"][:14]})
     ctx.assumptions += ["an injected fault is returned instead of executing the statement, so the failed statement itself has no effect "
